@@ -18,6 +18,7 @@ import (
 	"fmt"
 	"os"
 	"sort"
+	"strconv"
 	"strings"
 
 	"verifharness/cssedge"
@@ -121,6 +122,12 @@ func (g *gen) edge() []job {
 	}
 	for _, s := range append(append([]string{}, edgeSelectors...), selAtoms...) {
 		truncs(s, "selector")
+	}
+	// control characters (the CSS newlines FF CR LF, NUL, TAB, VT, DEL ...) RAW inside every lexical context of the
+	// selector parser: alone, and as the prelude of a style rule / inside :not() of a stylesheet
+	for _, s := range cssedge.SelectorCtl() {
+		add("ctl", "selector", s, 0)
+		add("ctl", "stylesheet", s+"{color:red}", 0)
 	}
 	for _, s := range pagePreludes {
 		truncs(s, "pagesel")
@@ -229,7 +236,12 @@ func (g *gen) edge() []job {
 	for _, t := range edgeHTMLAttrs {
 		for _, v := range edgeHTMLVals {
 			for _, p := range cssedge.Prefixes(v, true) {
-				add("trunc", "html", "<html><body>"+t.open+t.attr+"=\""+escAttr(p)+"\""+t.close+"</body></html>", 0)
+				// a valid span of hundreds of columns / rows is a request for a huge grid: boxes only (x = 1), its layout takes seconds
+				x := 0
+				if n, err := strconv.Atoi(strings.TrimSpace(p)); err == nil && n > 64 && (t.attr == "colspan" || t.attr == "rowspan" || t.attr == "span") {
+					x = 1
+				}
+				add("trunc", "html", "<html><body>"+t.open+t.attr+"=\""+escAttr(p)+"\""+t.close+"</body></html>", x)
 			}
 		}
 	}
